@@ -30,13 +30,16 @@ META = {
         "three on the same index expression (a 'neu' arm without writes keeps the face's single type and is accepted). "
         "R4: the arms cover exactly 'dir'/'neu'/'rob' and anything else raises. R5: scalar and vectorial siblings perform "
         "the same set of flag writes per keyword and both convert boolean masks to indices before the subset check. "
+        "R6: every other method that switches a flag on clears the other two on the same index. The methods are analysed on "
+        "normalised deep copies (private one-level helpers inlined, aliases/constants propagated, tuple assignments split); the "
+        "keyword dispatch may be an elif chain, a run of guard-continue ifs or end in a `!=` test. "
         "Not decided: correctness of the grid's boundary tags (get_all_boundary_faces), and flag edits done by callers "
         "directly on the arrays or by other methods (internal_to_dirichlet is reported as a note)."),
     "rule_text": "one obligation per (flag initialisation | default | flag write | arm | keyword | class)",
     "trusted_base": ["python ast", "sa.core (loader, astutil, cfg dominators)"],
     "assumptions": ["flag arrays are written only through subscript stores self.is_X[...] = True/False inside the anchored functions",
                     "np.isin/np.all have numpy semantics", "an explicit raise is the only way the subset test rejects input"],
-    "technique": "if/elif arm extraction + CFG dominance + sibling table comparison",
+    "technique": "AST normalisation (one-level helper inlining, copy propagation, tuple-assignment splitting) + keyword-arm extraction (elif chains, guard-continue runs) + CFG dominance + sibling table comparison",
 }
 MIN_INSTANCES = {"R1": 13, "R2": 18, "R3": 6, "R4": 4, "R5": 4, "R6": 1}
 
@@ -518,15 +521,24 @@ def _r2_subset_check(ctx: Ctx, mod, cname, fname, armfn, arms, bf_attr) -> bool:
               f"flag write `{u(stray[0]) if stray else ''}` indexes with something that does not derive from the checked array `{fv}`",
               construct=(u(stray[0]) if stray else f"all flag writes index through `{fv}`"),
               desc=f"all flag writes index through the checked array `{fv}`")
+    from ..core.astutil import inline_locals, single_assign_value
     checks = []
     unknown = []
+    where_tested: dict[int, ast.stmt] = {}   # id(if) -> statement that evaluates the membership test
     for n in walk_local(armfn):
         if isinstance(n, ast.If):
-            st = _subset_test(n.test)
+            # the test may go through boolean temporaries (`on_boundary = np.isin(...)`): resolve single-assignment,
+            # non-parameter locals; the membership is then evaluated where the (first) temporary is assigned
+            test = inline_locals(armfn, n.test, stop=list(params) + sorted(fclass))
+            temps = [single for nm in names_in(n.test) if nm not in params and nm not in fclass
+                     for single in [st_ for st_ in stmts_local(armfn) if isinstance(st_, (ast.Assign, ast.AnnAssign))
+                                    and [u(t) for t in assigned_targets(st_)] == [nm]]]
+            st = _subset_test(test)
             if st is not None and u(st[2]) == f"self.{bf_attr}":
                 checks.append((n, st))
-            elif st is None and n.body and isinstance(n.body[-1], ast.Raise) and (names_in(n.test) & fclass) and \
-                    any(isinstance(x, ast.Attribute) and x.attr == bf_attr for x in ast.walk(n.test)):
+                where_tested[id(n)] = temps[0] if len(temps) == 1 and u(test) != u(n.test) else n
+            elif st is None and n.body and isinstance(n.body[-1], ast.Raise) and (names_in(test) & fclass) and \
+                    any(isinstance(x, ast.Attribute) and x.attr == bf_attr for x in ast.walk(test)):
                 unknown.append(n)
     effective = []
     why = f"no test of `{fv}` against self.{bf_attr} found"
@@ -561,7 +573,7 @@ def _r2_subset_check(ctx: Ctx, mod, cname, fname, armfn, arms, bf_attr) -> bool:
     real = [s for s in rebinds if not (isinstance(s, ast.Assign) and isinstance(s.value, ast.Name) and s.value.id in fclass)]
     bad = []
     for e in effective:
-        en = c.node_for(e)
+        en = c.node_for(where_tested.get(id(e), e))
         bad += [s for s in real if c.reachable(en, c.node_for(s))]
     ctx.check("R2", not bad, mod, q, bad[0] if bad else armfn,
               f"`{fv}` is re-bound after it was checked against the boundary: the checked and the written faces differ",
